@@ -54,8 +54,7 @@ def jacBody (f : Array E → Array E) (point : Array E) (delta : E)
   let xi ← aget x.2.1 i
   let state ← aset x.2.1 i (xi + delta)
   let fnew := f state
-  let xi' ← aget state i
-  let state' ← aset state i (xi' - delta)
+  let state' ← aset state i xi
   let diff ← Vec.sub fnew (f point)
   let col ← Vec.sdiv diff delta
   let jac ← Mat.setCol x.1 i col
@@ -77,16 +76,14 @@ theorem evalPt_eq_set (point : Array E) (delta : E) (k : Nat) (hk : k < point.si
   rw [evalPt, modify_eq_set _ _ _ (by simpa using hk)]
 
 theorem stateAt_succ_eq_set (point : Array E) (delta : E) (k : Nat) (hk : k < point.size) :
-    (evalPt point delta k).setIfInBounds k ((evalPt point delta k)[k]'(by simpa using hk) - delta)
+    (evalPt point delta k).setIfInBounds k ((stateAt point delta k)[k]'(by simpa using hk))
       = stateAt point delta (k + 1) := by
-  have hk' : k < (stateAt point delta k).size := by simpa using hk
-  rw [stateAt, modify_eq_set _ _ _ hk']
   apply Array.ext_getElem?
   intro i
   simp only [Array.getElem?_setIfInBounds, evalPt, Array.getElem?_modify, Array.getElem_modify,
-    Array.size_modify]
+    Array.size_modify, stateAt]
   by_cases e : k = i
-  · subst e; simp
+  · subst e; simp [hk]
   · simp [e]
 
 /-- the first five operations of the loop body in column `k`, on the working copy `stateAt k` -/
@@ -145,7 +142,7 @@ theorem jacobian_ok_calls (f : Array E → Array E) (point : Array E) (delta : E
       ⟨rfl, rfl, fun j hj => absurd hj (Nat.not_lt_zero j)⟩ (by
         rintro i ⟨jac, state, tr⟩ ⟨jac', state', tr'⟩ _ hi ⟨hs, ht, hsz⟩ hb
         simp only at hs ht hsz
-        subst hs ht
+        subst state ht
         obtain ⟨a, b, c⟩ := jacBody_ok f point delta jac jac' _ tr' state' i (by omega) hb
         refine ⟨b, by simp [c, List.range_succ], ?_⟩
         intro j hj
@@ -208,7 +205,7 @@ theorem jacobian_prefix (f : Array E → Array E) (point : Array E) (delta : E) 
     (by
       rintro k ⟨jac, state, tr⟩ _ hk ⟨hs, ht, e, hI, hE⟩
       simp only at hs ht hI hE
-      subst hs ht
+      subst state ht
       have hkn : k < point.size := by omega
       have hfn : (f (evalPt point delta k)).size = (f point).size := hgood k hk
       have hd1 : Vec.sub (f (evalPt point delta k)) (f point)
@@ -238,7 +235,7 @@ theorem jacobian_prefix (f : Array E → Array E) (point : Array E) (delta : E) 
   obtain ⟨jac, state, tr⟩ := r
   obtain ⟨hs, ht, e, hI, hE⟩ := hP
   simp only at hs ht hI hE
-  subst hs ht
+  subst state ht
   exact ⟨jac, e, hr, hI, hE⟩
 
 /-- **a size change in column `j` is the size panic, class (S)**: if `f` returns a vector of the
@@ -314,12 +311,12 @@ theorem jacobian_panic_evals (f : Array E → Array E) (point : Array E) (delta 
       (jacBody f point delta) (j - 0) 0 (jacInit f point) _ ⟨rfl, rfl⟩ (by
         rintro i ⟨jac, state, tr⟩ ⟨jac', state', tr'⟩ _ hi ⟨hs, ht⟩ hb
         simp only at hs ht
-        subst hs ht
+        subst state ht
         obtain ⟨a, b, c⟩ := jacBody_ok f point delta jac jac' _ tr' state' i (by omega) hb
         exact ⟨b, by simp [c, List.range_succ]⟩) hpre
     simp only [Nat.sub_zero, Nat.zero_add] at this
     obtain ⟨hs, ht⟩ := this
-    subst hs ht
+    subst state ht
     exact ⟨j, jac, hj, hpre, hbody, by simp; omega⟩
 
 end S
